@@ -207,7 +207,7 @@ Definition charge_rg (d : db) (supi rg : Z) (st : rgstate) (req : option Z) (use
       match abmf_ccr d c with
       | (_, NoAnswer) => (d, mkRg (q_reserved st) mode' (q_cost st) (q_reqnum st), None)
       | (d', Answer _) =>
-        (d', mkRg 0 mode' (q_cost st) (u32 (q_reqnum st + 1)), Some (mkMui rg (Some 0) false))
+        (d', mkRg 0 mode' (q_cost st) (u32 (q_reqnum st + 1)), Some (mkMui rg (Some 0) true))   (* debit mode: no grant, final unit *)
       end
     end
   else (d, mkRg (q_reserved st) (q_mode st) (q_cost st) (u32 (q_reqnum st + 1)), Some (mkMui rg None false)).
